@@ -15,7 +15,7 @@ import shutil
 import subprocess
 import sys
 
-WT = "/tmp/wt-confirm"
+WT = os.environ.get("CONFIRM_WT", "/tmp/wt-confirm")
 BD = WT + "/_b"
 VERIF = os.path.dirname(os.path.dirname(os.path.abspath(__file__)))
 J = os.environ.get("CONFIRM_JOBS", "8")
@@ -32,11 +32,21 @@ def demo_cmd(src, exe):
             "-Wl,-rpath,%s/SparseGrids:%s/DREAM -o %s" % (BD, WT, WT, WT, WT, WT, src, BD, BD, BD, BD, BD, exe))
 
 
+def run_demo(d, exe):
+    """demo.cpp (linked against the worktree build) or demo.sh <build_dir> <source_dir>; returns (exit status | None, output)"""
+    if os.path.exists(os.path.join(d, "demo.sh")):
+        return sh("bash %s %s %s" % (os.path.join(d, "demo.sh"), BD, WT), timeout=900)
+    rc, o = sh(demo_cmd(os.path.join(d, "demo.cpp"), exe))
+    if rc != 0:
+        return None, o
+    return sh(exe, timeout=600)
+
+
 def main():
     dirs = []
     for out in sys.argv[1:]:
         for d in sorted(os.listdir(out)):
-            if os.path.exists(os.path.join(out, d, "patch.diff")):
+            if os.path.exists(os.path.join(out, d, "patch.diff")) and os.path.exists(os.path.join(out, d, "meta.json")):
                 dirs.append(os.path.join(out, d))
     sh("git -C /repo worktree remove --force %s" % WT)
     shutil.rmtree(WT, ignore_errors=True)
@@ -68,10 +78,9 @@ def main():
                 rc, o = sh("ctest --test-dir %s -j%s --timeout 900" % (BD, J))
                 rec["suite_passes_on_retry"] = (rc == 0)
                 rec["suite_passes"] = (rc == 0)
-            exe = "/tmp/wt-confirm-demo"
-            rc, o = sh(demo_cmd(os.path.join(d, "demo.cpp"), exe))
-            if rc == 0:
-                rc, o = sh(exe, timeout=600)
+            exe = WT + "-demo"
+            rc, o = run_demo(d, exe)
+            if rc is not None:
                 rec["demo_with_change"] = rc
                 rec["demo_output"] = o[-300:]
             else:
@@ -85,16 +94,17 @@ def main():
             # without the change
             sh("git -C %s checkout -- ." % WT)
             rc, o = sh("cmake --build %s -j%s" % (BD, J))
-            rc, o = sh(demo_cmd(os.path.join(d, "demo.cpp"), exe))
-            if rc == 0:
-                rc, o = sh(exe, timeout=600)
+            rc, o = run_demo(d, exe)
+            if rc is not None:
                 rec["demo_without_change"] = rc
         rec["confirmed"] = bool(rec.get("suite_passes") and rec.get("demo_with_change", 0) != 0 and rec.get("demo_without_change", 1) == 0)
         if rec["confirmed"]:
             dst = os.path.join(VERIF, "seeded", name)
             os.makedirs(dst, exist_ok=True)
             shutil.copy(os.path.join(d, "patch.diff"), dst)
-            shutil.copy(os.path.join(d, "demo.cpp"), dst)
+            for f in ("demo.cpp", "demo.sh"):
+                if os.path.exists(os.path.join(d, f)):
+                    shutil.copy(os.path.join(d, f), dst)
             m2 = {"property": pid, "summary": meta.get("summary"), "needs": meta.get("needs"), "files": meta.get("files"),
                   "confirmed_by_lead": {"suite_passes_with_change": True, "demo_exit_with_change": rec["demo_with_change"],
                                         "demo_exit_without_change": rec["demo_without_change"],
